@@ -8,6 +8,7 @@ Confirms a sub-agent's seeded change in a scratch worktree of /repo (removed aft
 import json, os, re, shutil, subprocess, sys, time
 
 seed, prop, dest = sys.argv[1:4]
+DEMO_NAME = sys.argv[4] if len(sys.argv) > 4 else None
 WT = "/tmp/wt-confirm"
 def sh(cmd, cwd=None, timeout=3600):
     p = subprocess.run(cmd, shell=True, cwd=cwd, capture_output=True, text=True, timeout=timeout)
@@ -36,6 +37,7 @@ try:
     # prefer names containing 'demo'
     for n in names:
         if "demo" in n: filt = n
+    if DEMO_NAME: filt = DEMO_NAME
     res["demo_test"] = {"package": pkg, "filter": filt}
     rc, out = sh(f"{env} cargo test -p {pkg} --offline {filt} 2>&1 | tail -25", cwd=WT)
     res["demo_with_change_fails"] = ("test result: FAILED" in out) or ("panicked" in out and "test result: ok" not in out)
@@ -46,18 +48,16 @@ try:
     res["demo_without_change_passes"] = "test result: ok" in out and "FAILED" not in out
     ran = re.findall(r"test result: ok\. (\d+) passed", out)
     res["demo_without_change_ran"] = sum(int(x) for x in ran)
+    # run the check against the scratch worktree with only the change applied (VX_REPO: same code path as /repo)
+    sh("git checkout -- . && git clean -fdq", cwd=WT)
+    rc, out = sh(f"git apply {patch}", cwd=WT); assert rc == 0, out
+    t0 = time.time()
+    rc, out = sh(f"VX_REPO={WT} KX_WS=/var/tmp/kx-ws-confirm ./check {prop} --tier quick", cwd="/verif", timeout=7200)
+    res["check"] = {"exit": rc, "wall_s": round(time.time() - t0, 1), "repo": "scratch worktree of /repo HEAD + patch.diff (VX_REPO)",
+                    "lines": [l for l in out.split("\n") if l.startswith(("VIOLATION", "FAILED-OBLIGATION", "UNDECIDED", "OK ", "KNOWN-FINDING", "NOTE"))][:12]}
 finally:
     sh(f"git -C /repo worktree remove --force {WT}")
-# run the check on /repo with the change
-rc, out = sh("git -C /repo status --porcelain"); assert out.strip() == "", "repo not clean: " + out
-rc, out = sh(f"git -C /repo apply {patch}"); assert rc == 0, out
-t0 = time.time()
-try:
-    rc, out = sh(f"./check {prop} --tier quick", cwd="/verif", timeout=7200)
-finally:
-    sh("git -C /repo checkout -- .")
-res["check"] = {"exit": rc, "wall_s": round(time.time() - t0, 1),
-                "lines": [l for l in out.split("\n") if l.startswith(("VIOLATION", "FAILED-OBLIGATION", "UNDECIDED", "OK ", "KNOWN-FINDING", "NOTE"))][:12]}
+    sh("rm -rf /var/tmp/kx-ws-confirm /var/tmp/kx-ws-confirm.lock")
 res["detected"] = rc == 1 and any(l.startswith("VIOLATION") for l in res["check"]["lines"])
 d = os.path.join("/verif/seeded", dest)
 os.makedirs(d, exist_ok=True)
